@@ -78,6 +78,7 @@ def generate(rng, cfg: Dict) -> Dict:
     if c.chance(0.25):
         suffix = _stable_interleave(c, s_creates, s_rel)
     shape = c.weighted([("mirror", 5), ("permuted", 4), ("random", 3), ("none", 0.5)])
+    faults = c.chance(0.35)  # swarm knob: prefix operations that fail half-way
     prefix: List[list] = []
     if shape in ("mirror", "permuted"):
         rounds = c.int(1, 3)
@@ -109,6 +110,8 @@ def generate(rng, cfg: Dict) -> Dict:
                         # the stale pair the suffix would hit with swapped creation order
                         rels.append(["relate", op[1], hs, op[3], ht])
             rels += _relations(c, classes, c.int(0, 3))
+            if faults:
+                rels = _with_faults(c, rels, classes, base + 50)
             prefix += creates + rels
             if c.chance(0.3):
                 hs = list(classes)
@@ -140,7 +143,8 @@ def generate(rng, cfg: Dict) -> Dict:
                 classes.update(cl)
                 nxt += 1
             elif r < 0.6:
-                prefix += _relations(c, classes, 1)
+                one = _relations(c, classes, 1)
+                prefix += _with_faults(c, one, classes, 900 + nxt) if faults else one
             elif r < 0.8:
                 h = c.pick(list(classes))
                 prefix.append(["drop", h])
@@ -158,6 +162,22 @@ def generate(rng, cfg: Dict) -> Dict:
                 prefix.append(["drop", h])
             prefix += [["gc"], ["sweep"]]
     return {"property": "C14", "machine": "lifecycle_sim", "salt": c.int(0, 1 << 30), "prefix_shape": shape, "prefix": prefix, "suffix": suffix}
+
+
+def _with_faults(c: Chooser, rels: List[list], classes: Dict[int, str], serial: int) -> List[list]:
+    """Some of the assertions are interrupted by failing user code; sometimes a constructor does not complete."""
+    out = []
+    for op in rels:
+        if c.chance(0.4):
+            out.append(["relate_interrupted", op[1], op[2], op[3], op[4], c.int(0, 5)])
+            if c.chance(0.5):
+                out.append(op)  # the program retries
+        else:
+            out.append(op)
+    orgs = [h for h, k in classes.items() if k == "Org"]
+    if orgs and c.chance(0.5):
+        out.insert(c.int(0, len(out)), ["create_failing", serial, c.pick(orgs), c.pick([None, None, 0, 1, 2, 3])])
+    return out
 
 
 def generate_liveness(c: Chooser, rng) -> Dict:
@@ -403,6 +423,32 @@ def _interpret(world: World, ops: List[list], log_prefix: str, track: Dict):
                 del obj
             elif kind == "relate":
                 world.relate(op[1], op[2], op[3], op[4])
+            elif kind == "relate_interrupted":
+                # fault: user code (__hash__ of an instance) fails at its k-th call inside the assertion
+                _, how, hs, field, ht, k = op
+                oworld.FAULT[0] = k
+                try:
+                    world.relate(how, hs, field, ht)
+                except oworld.InjectedFault:
+                    world.counters.inc("fault.assertion_interrupted")
+                finally:
+                    oworld.FAULT[0] = None
+            elif kind == "create_failing":
+                # fault: a constructor that assigns a managed field and does not complete (on the unchanged tree
+                # Human(serial, works_for=org) raises because works_for is assigned before member_of exists); the
+                # half-built instance is garbage at once
+                _, serial, ht, k = op
+                target = world.handles.get(ht)
+                if isinstance(target, oworld.Org):
+                    oworld.FAULT[0] = k
+                    try:
+                        oworld.Human(serial, works_for=target)
+                        world.counters.inc("probe.constructor_with_managed_argument_completed")
+                    except Exception:
+                        world.counters.inc("fault.constructor_raised")
+                    finally:
+                        oworld.FAULT[0] = None
+                del target
             elif kind == "drop":
                 world.drop(op[1])
             elif kind == "tie":
